@@ -788,6 +788,73 @@ static void runStorm(Ctx& c, Rng& rng, unsigned threads, unsigned rowsPerThread,
 # define IF_STAT(x) x
 #endif
 
+// ------------------------------------------------------------------ narrow rows (one 1-byte column, no row number)
+static constexpr momo::DataColumn<uint8_t> byteCol("b");
+struct NarrowDyn {
+	static const char* name() { return "narrow-dyn"; }
+	typedef momo::DataColumnList<momo::DataColumnTraits<>, LedgerMM, momo::DataItemTraits<LedgerMM>, momo::DataSettings<false>> CL;
+	typedef momo::DataTable<CL> Table; typedef Table::Row Row;
+	static Table make(Ledger* led) { CL cl{LedgerMM(led)}; cl.Add(byteCol); return Table(std::move(cl)); }
+	static void set(Row& r, uint8_t v) { r[byteCol] = v; }
+	template<typename R> static uint8_t get(const R& r) { return r[byteCol]; }
+};
+struct NarrowStruct { uint8_t b; };
+struct NarrowStat {
+	static const char* name() { return "narrow-stat"; }
+	typedef momo::DataColumnListStatic<NarrowStruct, momo::DataColumnInfo<NarrowStruct>, LedgerMM, momo::DataSettings<false>> CL;
+	typedef momo::DataTable<CL> Table; typedef Table::Row Row;
+	static Table make(Ledger* led) { return Table(CL(LedgerMM(led))); }
+	static void set(Row& r, uint8_t v) { r->b = v; }
+	template<typename R> static uint8_t get(const R& r) { return r->b; }
+};
+
+template<typename Cfg>
+static void runNarrow(Ctx& c, Rng& rng, unsigned cases)
+{
+	typedef typename Cfg::Table Table; typedef typename Cfg::Row Row;
+	for (unsigned cs = 0; cs < cases; ++cs) {
+		Ledger led;
+		std::string what = fmt("%s case %u", Cfg::name(), cs);
+		{
+			Table t = Cfg::make(&led);
+			// what ~DataRow relies on: a disposed row's storage holds the link pointer
+			size_t blockSize = t.mRawMemPool.GetBlockSize();
+			if (blockSize < sizeof(void*)) c.fail("C19 narrow: %s: the row pool hands out blocks of %zu bytes, but a disposed row's storage must hold the %zu-byte free-list link that ~DataRow writes into it", what.c_str(), blockSize, sizeof(void*));
+			unsigned nLive = 40 + (unsigned)rng.below(60), nDet = 30 + (unsigned)rng.below(90), threads = 2 + (unsigned)rng.below(2);
+			std::vector<uint8_t> expect;
+			std::vector<std::vector<std::unique_ptr<Row>>> hand(threads);
+			// interleave live and detached rows so that they are neighbours in the pool's buffers
+			unsigned made = 0;
+			for (unsigned i = 0; i < nLive + nDet; ++i) {
+				bool live = (i % 2 == 0 && expect.size() < nLive) || made >= nDet;
+				Row r = t.NewRow(); uint8_t v = (uint8_t)(37 * i + 11); Cfg::set(r, v);
+				if (live) { t.Add(std::move(r)); expect.push_back(v); }
+				else { hand[made % threads].emplace_back(new Row(std::move(r))); ++made; }
+			}
+			std::atomic<bool> go(false);
+			std::vector<std::thread> ths;
+			for (unsigned k = 0; k < threads; ++k)
+				ths.emplace_back([&, k] { while (!go.load()) std::this_thread::yield(); for (auto& r : hand[k]) r.reset(); });
+			go.store(true);
+			// the owner keeps working: new rows (which drains the list and reuses blocks), adds, extracts
+			for (unsigned j = 0; j < 60; ++j) {
+				Row r = t.NewRow(); uint8_t v = (uint8_t)(91 * j + 5); Cfg::set(r, v);
+				if (j % 3 == 0) { t.Add(std::move(r)); expect.push_back(v); }
+				else if (j % 3 == 1 && t.GetCount() > 1) { Row e = t.Extract(t.GetCount() - 1); (void)e; expect.pop_back(); }
+			}
+			for (auto& th : ths) th.join();
+			c.stats.evaluations++;
+			if (t.GetCount() != expect.size()) c.fail("C19 narrow: %s: table holds %zu rows, %zu expected", what.c_str(), t.GetCount(), expect.size());
+			for (size_t i = 0; i < expect.size() && i < t.GetCount(); ++i)
+				if (Cfg::get(t[i]) != expect[i]) { c.fail("C19 narrow: %s: live row %zu holds %u, expected %u (its storage was overwritten while rows next to it were disposed of on %u threads)", what.c_str(), i, (unsigned)Cfg::get(t[i]), (unsigned)expect[i], threads); break; }
+			Row fresh = t.NewRow();	// drain what the disposers left
+			(void)fresh;
+		}
+		checkLedger(c, led, "narrow", what);
+		c.stats.nontrivial(what);
+	}
+}
+
 int main(int argc, char** argv)
 {
 	Ctx c = parseArgs(argc, argv);
@@ -855,6 +922,10 @@ int main(int argc, char** argv)
 			IF_STAT(runStorm<StatCfg>(c, rng, th, rows, rows * 2);)
 		}
 	}
+	// rows narrower than a pointer: the destructor of a detached row writes the free-list link (a pointer) into the row's
+	// storage, so the row pool's blocks must be able to hold one whatever the columns are; neighbouring blocks are live rows
+	IF_DYN(runNarrow<NarrowDyn>(c, rng, c.thorough ? 200 : 30);)
+	IF_STAT(runNarrow<NarrowStat>(c, rng, c.thorough ? 200 : 30);)
 	if (g_crashFd >= 0) { close(g_crashFd); g_crashFd = -1; if (!c.failures) unlink((c.outDir + "/fail.txt").c_str()); }
 	return c.finish();
 }
